@@ -11,7 +11,7 @@ rationals `n/d` (integers may be written without denominator); COO triplets are 
   fullc size | E… | ck… | inc | cu…
         -> ok c…
   del   E… | v…                    -> ok v'…                       (np.delete on a vector)
-  fext  size num0 num1 num2 m1 m2 n2 i0 j0 dofs | E… | inc uTM thetaT pi r2 cosa sina L P Pinc T Tinc |
+  fext  size num0 num1 num2 m1 m2 n2 i0 j0 dofs | E… | inc uTM thetaT LA pi r2 cosa sina L P Pinc T Tinc |
         bc24 clpt fsdt pdT | Nxxtop… | forces | forcesInc | g00 (flat, row-major) | k0uk triplets
         (a force is `fx ft fz g…` with g flat row-major, forces separated by `;`)
         -> ok f…                   | err pressureFsdt
@@ -57,12 +57,12 @@ def fextIn? (fs : List String) : Option (FextIn ℚ) :=
   | [dims, e, nums, flags, nxx, forces, forcesInc, g00, kuk] =>
     match nats? dims, nats? e, parseQs? nums, nats? flags, parseQs? nxx, parseQs? g00, triplets? kuk with
     | some [size, num0, num1, num2, m1, m2, n2, i0, j0, dofs], some E,
-      some [inc, uTM, thetaT, pi, r2, cosa, sina, L, P, Pinc, T, Tinc],
+      some [inc, uTM, thetaT, la, pi, r2, cosa, sina, L, P, Pinc, T, Tinc],
       some [bc24, clpt, fsdt, pdT], some nxx, some g00, some kuk =>
       match forces? size forces, forces? size forcesInc with
       | some f, some fi =>
         some { size, num0, num1, num2, m1, m2, n2, i0, j0, dofs, E, forces := f, forcesInc := fi,
-               inc, uTM, thetaT, Nxxtop := nxx, pi, r2, cosa, sina, L,
+               inc, uTM, thetaT, LA := la, Nxxtop := nxx, pi, r2, cosa, sina, L,
                bc24 := bc24 = 1, clpt := clpt = 1, fsdt := fsdt = 1, pdT := pdT = 1,
                P, Pinc, T, Tinc, g00 := chunks size g00, k0uk := kuk }
       | _, _ => none
